@@ -106,3 +106,9 @@ Proof.
   destruct (transmit_cases false ans f) as (data & _ & E). rewrite E.
   destruct (ans_deadline ans), (ans_write ans); cbn; intuition discriminate.
 Qed.
+
+(** the byte count answered by Write has no influence at all (the code discards it): one Write per
+    call, whatever n is; the result is nil iff the error answered by that Write is nil *)
+Theorem transmit_ignores_count dl d w n1 n2 f :
+  transmit dl (mkAnswers d w n1) f = transmit dl (mkAnswers d w n2) f.
+Proof. reflexivity. Qed.
